@@ -244,6 +244,39 @@ func c10Case(c *fw.Ctx, r *rng.R, tree *spec.Spec) {
 		h := &model.Heap{}
 		root := h.FromSpec(tree)
 		c.Distinct(tree.Canon())
+		if r != nil && r.Chance(1, 4) {
+			// somewhere in the tree sits a derived structure, handed over by its registered pointer or by a value it embeds
+			// (`parent.Set("emb", d.Object)`): every read resolves the registered pointer, as step-by-step Get does
+			nodes := reachable(root)
+			parent := nodes[r.Intn(len(nodes))]
+			do := NewDDObject("dk", 1, "ds", "x")
+			dl := NewDList(7, "s")
+			no, nl := h.NewObj(do), h.NewList(dl)
+			no.M["dk"], no.M["ds"] = model.Int(1), model.Str("x")
+			nl.E = []model.Val{model.Int(7), model.Str("s")}
+			var ho, hl any = do, dl
+			how := "their registered pointers"
+			switch r.Intn(3) {
+			case 1:
+				ho, hl, how = do.DObject.Object, dl.List, "the library containers they embed"
+			case 2:
+				ho, how = do.DObject, "an intermediate embedded value / the library container"
+				hl = dl.List
+			}
+			if parent.K == spec.List {
+				parent.List().Add(ho, hl)
+				parent.E = append(parent.E, model.Ref(no), model.Ref(nl))
+			} else {
+				parent.Object().Set("embo", ho, "embl", hl)
+				parent.M["embo"], parent.M["embl"] = model.Ref(no), model.Ref(nl)
+			}
+			c.Count("trees_with_derived_structures")
+			inner := in
+			in = func() string {
+				return inner() + "\nplus a DDObject {dk:1, ds:\"x\"} and a DList [7, \"s\"] stored in " + parent.Name() + " through " + how
+			}
+			tree = root.ToSpec()
+		}
 		c10Check(c, r, h, root, in, tree)
 	})
 }
